@@ -274,7 +274,8 @@ class LoopModel:
     def canon(self, w):
         return (tuple(X.generic_canon(s.gn.location_table) for s in w.stations.values()),
                 tuple(tuple(sorted((k[0].encode(), k[1]) for k in getattr(s.gn, "_cbf_buffer", {}))) for s in w.stations.values()),
-                tuple(s.gn.sequence_number for s in w.stations.values()),
+                tuple(getattr(s.gn, "sequence_number", None) if hasattr(s.gn, "sequence_number")
+                      else X.generic_canon({k: v for k, v in vars(s.gn).items() if isinstance(v, int)}) for s in w.stations.values()),
                 tuple(sorted((k, tuple(q)) for k, q in w.queues.items() if q)),
                 tuple(sorted(w.delivered.items())), tuple(sorted(w.transmitted.items())), w.n_orig,
                 tuple((round(t.due - w.now, 6), repr(t.args[0]) if t.args else "") for t in w.pending_timers()))
